@@ -41,3 +41,21 @@ func probeDefs(dir string) {
 		}
 	}
 }
+
+func probeComplete(dir string, line, ch int) {
+	src, _ := ioutil.ReadFile(filepath.Join(dir, "main.lua"))
+	s, err := lib.StartSession(dir, lib.AllChecksOptions())
+	if err != nil {
+		fmt.Println("ERR", err)
+		return
+	}
+	defer s.Close()
+	s.DidOpen("main.lua", string(src))
+	s.Sync()
+	items, err := s.Completion("main.lua", line, ch)
+	fmt.Println(err)
+	for _, it := range items {
+		fmt.Printf("%s(kind %d) ", it.Label, it.Kind)
+	}
+	fmt.Println()
+}
